@@ -3294,6 +3294,14 @@ struct Explorer {
                 bool f46 = DyndepOutputConsumerWithoutManifestPath(*fv);
                 for (size_t vi = nv0; vi < vs.size(); ++vi)
                   vs[vi].facts.set("a_consumer_of_a_dyndep_supplied_output_has_no_manifest_path_to_its_producer", f46);
+                // F91: the depfile scanner decides by the *spelling* whether a name left of a colon is a dependency seen
+                // before (gcc -MP) or a new output; the loader then refuses the "output" nobody declared
+                bool mp = false;
+                for (auto& st : fv->stmts)
+                  if (st.spec.dmp && !st.spec.dspell.empty() && !st.spec.depfile.empty() && st.deps.empty()) mp = true;
+                mp = mp && r.out.find("as an output, but no such output was declared") != string::npos;
+                for (size_t vi = nv0; vi < vs.size(); ++vi)
+                  vs[vi].facts.set("a_plain_depfile_names_a_dependency_again_as_a_target_of_its_own_under_another_spelling_and_is_refused", mp);
               }
           } else if (r.exit_code == 0 && op.cfg.edits_during.empty()) {
             // After an interrupted build the two projects are legitimately apart (ninja removes more of a command with a
